@@ -33,6 +33,9 @@ pub struct Report {
     pub exhaustive: bool,
     pub notes: Vec<String>,
     pub states: BTreeSet<u64>,
+    /// distinct non-trivial cases counted exactly because the shard enumerates a partition of a
+    /// finite space (never double counted across shards of one lane)
+    pub disjoint: u64,
 }
 
 impl Report {
@@ -64,6 +67,10 @@ impl Report {
     #[inline]
     pub fn distinct(&mut self, sig: u64) {
         self.distinct.insert(sig);
+    }
+    #[inline]
+    pub fn distinct_enumerated(&mut self) {
+        self.disjoint += 1;
     }
     #[inline]
     pub fn state(&mut self, sig: u64) {
@@ -114,7 +121,7 @@ impl Report {
         map_u64(&mut s, &self.buckets);
         s.push_str(",\"viol_counts\":");
         map_u64(&mut s, &self.viol_counts);
-        let _ = write!(s, ",\"distinct_count\":{},\"distinct\":[", self.distinct.len());
+        let _ = write!(s, ",\"distinct_disjoint\":{},\"distinct_count\":{},\"distinct\":[", self.disjoint, self.distinct.len());
         for (i, d) in self.distinct.iter().take(MAX_DISTINCT_EMITTED).enumerate() {
             if i > 0 {
                 s.push(',');
